@@ -8,12 +8,19 @@ Line-protocol driver for the quorum model (C06).
   vote <K:weight:rel:conf>*                                  K ∈ P E B D U X (PERMIT EXECUTE BLOCK DEFER other raises)
                                                              conf ∈ Rat | none (no confidence in payload) | bad
   realvote <safe|danger|inject> <atpBudget> <n>              a fresh colony of n real BioAgent voters, current configuration
+  colony <n>                                                 construct the object now with n built-in members
+  add <nameHex> <w> · addsame <idx> <w> · remove <nameHex> · setw <nameHex> <w>
+  relupd <nameHex> <0|1> · relall <permit|block|abstain|defer>      `update_reliability` / `update_all_reliability`
+  (weight / rel of a vote token may be `_`: keep the profile's value; the colony persists between votes and is
+   grown / shrunk to the ballot's length through add_agent / remove_agent)
   → reached decision permit block abstain total thresholdTag [vote kinds:weight:conf] ## branch tags
 -/
 open Operon Operon.Proto Operon.Quorum
 
 structure DSt where
   cfg : Option Cfg := some ⟨.majority, none, 1⟩
+  colony : Option (List Member) := none       -- none: the object has not been constructed yet
+  last : Option (List (List Nat × VoteType)) := none
 
 def strategyOf? : String → Option Strategy
   | "majority" => some .majority
@@ -39,20 +46,56 @@ def kindOf? : String → Option Kind
 def confOf (s : String) : Conf :=
   if s = "none" then .absent else if s = "bad" then .bad else .num (ratOf s)
 
-def voterOf? (s : String) : Option Voter :=
+/-- one ballot token `K:weight:rel:conf`; weight / rel `_` = keep what the profile has -/
+structure Tok where
+  beh : Behaviour
+  w : Option Rat
+  rel : Option Rat
+
+def optRat (s : String) : Option Rat := if s = "_" then none else some (ratOf s)
+
+def tokOf? (s : String) : Option Tok :=
   match s.splitOn ":" with
   | [k, w, r, c] =>
     match kindOf? k with
-    | some kd => some ⟨kd, confOf c, ratOf w, ratOf r⟩
+    | some kd => some ⟨⟨kd, confOf c⟩, optRat w, optRat r⟩
     | none => none
   | _ => none
 
-def votersOf? : List String → Option (List Voter)
+def toksOf? : List String → Option (List Tok)
   | [] => some []
   | s :: rest =>
-    match voterOf? s, votersOf? rest with
+    match tokOf? s, toksOf? rest with
     | some v, some vs => some (v :: vs)
     | _, _ => none
+
+def strCps (s : String) : List Nat := s.toList.map Char.toNat
+
+/-- the harness grows a colony with `add_agent(f"Added_{len(colony)}", 1.0)` … -/
+def growTo : Nat → Nat → List Member → List Member
+  | 0, _, c => c
+  | fuel + 1, n, c => if c.length < n then growTo fuel n (addAgent c (strCps s!"Added_{c.length}") 1) else c
+
+/-- … and shrinks it with `remove_agent(colony[-1].agent.name)` (which pops the FIRST member of that name) -/
+def shrinkTo : Nat → Nat → List Member → List Member
+  | 0, _, c => c
+  | fuel + 1, n, c =>
+    if c.length > n then
+      match c.getLast? with
+      | some m => shrinkTo fuel n (removeAgent c m.name).1
+      | none => c
+    else c
+
+def assignAll : Nat → List Tok → List Member → List Member
+  | _, [], c => c
+  | i, t :: rest, c => assignAll (i + 1) rest (assignProfile c i t.w t.rel)
+
+def isPow2 (n : Nat) : Bool := n != 0 && (n &&& (n - 1)) == 0
+
+def showMember (m : Member) : String :=
+  s!"{encodeCps m.name}:{showRat m.weight}:{showRat m.rel}:{m.votesCast}:{m.correct}"
+
+def showColony (c : List Member) : String := showList (c.map showMember)
 
 def showVT : VoteType → String
   | .permit => "permit" | .block => "block" | .abstain => "abstain" | .defer => "defer"
@@ -68,17 +111,48 @@ def thresholdTag (cfg : Cfg) (colony : Nat) (r : Result) (gated : Bool) : String
   else if cfg.strategy = .threshold then s!"cnt:{showRat (r.thresholdUsed * natR colony)}"
   else showRat r.thresholdUsed
 
-def voteLine (st : DSt) (cfg : Cfg) (voters : List Voter) (tagPrefix : String) : DSt × String :=
-  if runVoteRaises cfg voters then (st, s!"raise:ZeroDivisionError ## {tagPrefix}{showStrategy cfg.strategy}:raise")
-  else
-    let r := runVote cfg voters
-    let gated := decide (activeCount (collect voters) < cfg.minVoters)
-    let tag := if gated then s!"{tagPrefix}gate"
-      else s!"{tagPrefix}{showStrategy cfg.strategy}:{if r.reached then "permit" else "block"}"
-    (st, joinSp [showBool r.reached, showVT r.decision, toString r.permit, toString r.block,
-      toString r.abstain, toString r.total, thresholdTag cfg voters.length r gated,
-      showList (r.votes.map fun v => s!"{showVT v.kind}:{showRat v.weight}:{showRat v.conf}")]
-      ++ s!" ## {tag}")
+def voteTypeOf? : String → Option VoteType
+  | "permit" => some .permit | "block" => some .block | "abstain" => some .abstain | "defer" => some .defer
+  | _ => none
+
+def showResult (cfg : Cfg) (voters : List Voter) (names : List (List Nat)) (r : Result) (tagPrefix : String) : String :=
+  let gated := decide (activeCount (collect voters) < cfg.minVoters)
+  let tag := if gated then s!"{tagPrefix}gate"
+    else s!"{tagPrefix}{showStrategy cfg.strategy}:{if r.reached then "permit" else "block"}"
+  joinSp [showBool r.reached, showVT r.decision, toString r.permit, toString r.block,
+    toString r.abstain, toString r.total, thresholdTag cfg voters.length r gated,
+    showList (List.zipWith (fun v n => s!"{showVT v.kind}:{showRat v.weight}:{showRat v.conf}:{encodeCps n}") r.votes names)]
+    ++ s!" ## {tag}"
+
+/-- a vote of a fresh, un-stubbed colony (does not touch the driver's own colony) -/
+def realVoteLine (st : DSt) (cfg : Cfg) (voters : List Voter) : DSt × String :=
+  if runVoteRaises cfg voters then (st, s!"raise:ZeroDivisionError ## real:{showStrategy cfg.strategy}:raise")
+  else (st, showResult cfg voters ((List.range voters.length).map builtinName) (runVote cfg voters) "real:")
+
+/-- a vote of the driver's colony, through `stepOp` -/
+def voteLine (st : DSt) (cfg : Cfg) (toks : List Tok) : DSt × String :=
+  let n := toks.length
+  let c0 := st.colony.getD (newColony n)
+  let c1 := assignAll 0 toks (shrinkTo (c0.length + 1) n (growTo (n + 1) n c0))
+  let beh : Nat → Behaviour := fun i => (toks.map (·.beh)).getD i ⟨.permit, .absent⟩
+  let voters := electorate c1 beh
+  let (q, res) := stepOp ⟨cfg, c1, st.last⟩ (.vote beh)
+  let st' : DSt := { cfg := some cfg, colony := some q.colony, last := q.last }
+  match res with
+  | none => (st', s!"raise:ZeroDivisionError ## {showStrategy cfg.strategy}:raise")
+  | some r =>
+    let weightSensitive := cfg.strategy = .weighted || cfg.strategy = .confidence || cfg.strategy = .bayesian
+    if weightSensitive && c1.any (fun m => !isPow2 m.rel.den) then (st', "skip:nondyadic ## skip")
+    else (st', showResult cfg voters (c1.map (·.name)) r "")
+
+/-- an operation on the (constructed-on-demand) colony through `stepOp`; prints the colony afterwards -/
+def colonyOp (st : DSt) (op : Op) (flag : Option Bool) : DSt × String :=
+  match st.cfg with
+  | none => (st, "bad-op")
+  | some cfg =>
+    let (q, _) := stepOp ⟨cfg, st.colony.getD [], st.last⟩ op
+    ({ cfg := some q.cfg, colony := some q.colony, last := q.last },
+      (match flag with | some b => showBool b ++ " " | none => "") ++ showColony q.colony)
 
 def step (st : DSt) (toks : List String) : DSt × String :=
   match toks with
@@ -89,10 +163,28 @@ def step (st : DSt) (toks : List String) : DSt × String :=
     match strategyOf? s with
     | some strat => ({ cfg := some ⟨strat, customOf c, natD m⟩ }, "ok")
     | none => (st, "bad-op")
+  | ["colony", n] =>
+    match st.colony with
+    | none => ({ st with colony := some (newColony (natD n)) }, "ok")
+    | some _ => (st, "bad-op")
   | ["setstrat", s, c] =>
     match strategyOf? s, st.cfg with
-    | some strat, some cfg => ({ cfg := some ⟨strat, customOf c, cfg.minVoters⟩ }, "ok")
+    | some strat, some _ => ((colonyOp st (.setStrategy strat (customOf c)) none).1, "ok")
     | _, _ => (st, "bad-op")
+  | ["add", name, w] => colonyOp st (.add (decodeCps name) (ratOf w)) none
+  | ["addsame", i, w] =>
+    match (st.colony.getD [])[natD i]? with
+    | some m => colonyOp st (.add m.name (ratOf w)) none
+    | none => (st, "bad-op")
+  | ["remove", name] =>
+    colonyOp st (.remove (decodeCps name)) (some (removeAgent (st.colony.getD []) (decodeCps name)).2)
+  | ["setw", name, w] =>
+    colonyOp st (.setWeight (decodeCps name) (ratOf w)) (some (setAgentWeight (st.colony.getD []) (decodeCps name) (ratOf w)).2)
+  | ["relupd", name, ok] => colonyOp st (.updateReliability (decodeCps name) (boolOf ok)) none
+  | ["relall", d] =>
+    match voteTypeOf? d with
+    | some vt => colonyOp st (.updateAll vt) none
+    | none => (st, "bad-op")
   | ["realvote", pc, budget, n] =>
     let p? : Option PromptClass :=
       match pc with
@@ -101,11 +193,11 @@ def step (st : DSt) (toks : List String) : DSt × String :=
       | "inject" => some .rejected
       | _ => none
     match p?, st.cfg with
-    | some p, some cfg => voteLine st cfg (bioVoters p (natD budget) (natD n)) "real:"
+    | some p, some cfg => realVoteLine st cfg (bioVoters p (natD budget) (natD n))
     | _, _ => (st, "bad-op")
   | "vote" :: vs =>
-    match votersOf? vs, st.cfg with
-    | some voters, some cfg => voteLine st cfg voters ""
+    match toksOf? vs, st.cfg with
+    | some ts, some cfg => voteLine st cfg ts
     | _, _ => (st, "bad-op")
   | _ => (st, "bad-op")
 
